@@ -4,7 +4,7 @@ From stdpp Require Import gmap.
 From Coq Require Import ZArith.
 From V Require Import Base.Res Sched.LedgerModel Sched.StmtModel Sched.GangModel Sched.CycleModel Sched.LedgerInvP
                       Sched.NodeCapLemmas Sched.NodeCapLemmasCycle Sched.NodeCapCheck Sched.NodeCapLemmasEvict Sched.NodeCapEvictEx
-                      Sched.NodeSumLemmas Sched.NodeSumCheck C02.BindModel C02.BindLemmas C02.BindEx.
+                      Sched.NodeSumLemmas Sched.NodeSumCheck Sched.NodeCapSelectVictims C02.BindModel C02.BindLemmas C02.BindEx.
 Open Scope Z_scope.
 
 (* A.1  NodeInfo.AddTask under the guard of its caller keeps the node within capacity *)
@@ -37,6 +37,13 @@ Theorem C02_node_add_binding_keeps_idle : forall eps, 0 < eps -> forall n t n' t
   node_add eps n t = inl (n', t') -> idle_ok eps n'.
 Proof. exact node_add_binding_keeps_idle. Qed.
 Print Assumptions C02_node_add_binding_keeps_idle.
+
+(* on the bind path every dimension is guarded, 'pods' included *)
+Theorem C02_node_add_binding_keeps_idle_all : forall eps, 0 < eps -> forall n t n' t',
+  idle_all_ok eps n -> t_status t = Binding ->
+  node_add eps n t = inl (n', t') -> idle_all_ok eps n'.
+Proof. exact node_add_binding_keeps_idle_all. Qed.
+Print Assumptions C02_node_add_binding_keeps_idle_all.
 
 (* ... but it does not look at FutureIdle (planned statement refuted; witness: a node holding a
    pipelined task) *)
@@ -316,6 +323,29 @@ Theorem C02_unpipeline_with_safe : forall eps s c nid n j st,
 Proof. exact unpipeline_with_safe. Qed.
 Print Assumptions C02_unpipeline_with_safe.
 
+(* topology-aware preemption: whatever the pop order of the candidates and whatever the other
+   votes, evicting exactly the victims SelectVictimsOnNode's dry run returns and pipelining the
+   preemptor (no re-check) leaves the node within capacity *)
+Theorem C02_select_victims_safe : forall eps, 0 < eps -> forall extra n, nbase eps n -> forall p,
+  nonneg (t_req p) -> (forall d, amt (t_req p) d <= amt (t_init p) d) -> forall q vs n' t',
+  NoDup q -> Forall (cand_ok n) q ->
+  select_victims eps extra future_idle p n q = Some vs ->
+  preempt_on eps p n vs = inl (n', t') ->
+  node_within_capacity eps n'.
+Proof. exact select_victims_safe. Qed.
+Print Assumptions C02_select_victims_safe.
+
+(* ... and not when the reprieve test looks at Idle instead of FutureIdle (seeded mutant C02-r5-1) *)
+Theorem C02_reprieve_against_idle_refuted :
+  nwc_b 2 tp_n1 = true /\
+  select_victims_idle_reprieve tp_B tp_n1 [2; 3]%positive = Some [2]%positive /\
+  match preempt_on 2 tp_B tp_n1 [2]%positive with
+  | inl (n', _) => (nwc_b 2 n', fut_amt n' DCpu)
+  | inr _ => (true, 0)
+  end = (false, -16000).
+Proof. exact reprieve_against_idle_refuted. Qed.
+Print Assumptions C02_reprieve_against_idle_refuted.
+
 (* Commit when the evictor refuses nothing touches no node ... *)
 Theorem C02_stmt_commit_without_refusal : forall eps s sid,
   refuse_evict s = ∅ -> Forall (fun o => op_kind o <> KAllocate) (default [] (stmts s !! sid)) ->
@@ -370,3 +400,7 @@ Proof. exact acct_world_ok. Qed.
 
 Example C02_bind_events_hypotheses_satisfiable : cinv 2 bx_cache /\ ops_ok 2 bx_cache bx_ops.
 Proof. exact bx_hypotheses. Qed.
+
+Example C02_select_victims_hypotheses_satisfiable :
+  nbase 2 tp_n1 /\ select_victims 2 all_votes_yes future_idle tp_B tp_n1 [2; 3]%positive = Some [3; 2]%positive.
+Proof. split; [exact tp_n1_base|exact (proj1 select_victims_future_idle)]. Qed.
